@@ -122,7 +122,13 @@ func (h *harness) buildCase(name string) corr.Case {
 						if k < len(rd.chans) && rd.chans[k] >= 0 {
 							ch = rd.chans[k]
 						}
-						add(key, fmt.Sprintf("pipe setup %d %d", r, m), fmt.Sprintf("ch %d", ch))
+						req := "-"
+						if rd.spec.Raw && k < len(rd.spec.Chans) && rd.spec.Chans[k] >= 0 {
+							req = fmt.Sprint(rd.spec.Chans[k])
+						} else if !rd.spec.Raw && !rd.udp {
+							req = fmt.Sprint(2 * k) // the library client asks for 0-1, 2-3, …
+						}
+						add(key, fmt.Sprintf("pipe setup %d %d %s", r, m, req), fmt.Sprintf("ch %d", ch))
 					}
 				}
 				add(key, fmt.Sprintf("pipe play %d", r), "ok")
@@ -368,6 +374,12 @@ func (h *harness) checkProperty(c *corr.Ctx) {
 				c.Dist("setup-without-ssrc")
 			}
 		}
+		if !rd.udp {
+			if a, b, bad := overlap(rd.chans); bad {
+				viol("the interleaved channel pairs announced in the SETUP responses of one session do not overlap", "c01-channel-overlap",
+					fmt.Sprintf("%s: SETUP responses announced the pairs %d-%d and %d-%d", who, a, a+1, b, b+1))
+			}
+		}
 		// order, at most once
 		if rd.udp {
 			last := map[[2]int]int{}
@@ -510,6 +522,12 @@ func (h *harness) checkRelay(c *corr.Ctx) {
 		c.Violate(corr.Violation{Property: "C01", Clause: clause, Key: key, Where: "recording client → client queue → transport → server session callback", Input: sc, Detail: detail})
 	}
 	who := "publisher (" + sc.Relay + ")"
+	if h.rawPub != nil {
+		if a, b, bad := overlap(h.rawPub.chans); bad {
+			viol("the interleaved channel pairs announced in the SETUP responses of one session do not overlap", "c01-channel-overlap",
+				fmt.Sprintf("%s: SETUP responses announced the pairs %d-%d and %d-%d", who, a, a+1, b, b+1))
+		}
+	}
 	ssrcOf := map[[2]int]uint32{}
 	last := map[[2]int]int{}
 	prev := -1
@@ -608,9 +626,26 @@ func (h *harness) buildPubCase(name string) corr.Case {
 		items = append(items, item{key: key, ord: ord, op: op, impl: impl})
 		ord++
 	}
+	if h.rawPub != nil {
+		qs = 1 << 20 // no client queue: the frames are written straight to the connection
+	}
 	add(-3, fmt.Sprintf("pub init %d %s %s", qs, strings.Join(ms, ";"), kind), "ok")
-	for m := range sc.Medias {
-		add(-2, fmt.Sprintf("pub setup 0 %d", m), fmt.Sprintf("ch %d", 2*m))
+	if h.rawPub != nil {
+		for k, m := range h.rawPub.order {
+			req := "-"
+			if h.rawPub.req[k] >= 0 {
+				req = fmt.Sprint(h.rawPub.req[k])
+			}
+			add(-2, fmt.Sprintf("pub setup 0 %d %s", m, req), fmt.Sprintf("ch %d", h.rawPub.chans[k]))
+		}
+	} else {
+		for m := range sc.Medias {
+			req := "-"
+			if sc.Relay == "tcp" {
+				req = fmt.Sprint(2 * m)
+			}
+			add(-2, fmt.Sprintf("pub setup 0 %d %s", m, req), fmt.Sprintf("ch %d", 2*m))
+		}
 	}
 	add(-1, "pub play 0", "ok")
 	for wid, o := range h.pubOut {
